@@ -286,7 +286,46 @@ def r19_4(ctx: Ctx) -> None:
         ctx.check(ok, "R19.4", f, f.node, f"{name} archives directories with writeall and files with write", f"{name} does not call writeall/write", construct=f"{name} -> writeall/write")
 
 
+def r19_5(ctx: Ctx) -> None:
+    """`l` recognises the first volume of the sets that `c -v` writes."""
+    rc = _cli(ctx, "run_create")
+    mv = [c for c in q.calls(rc) if attr_tail(c) == "MultiVolume"]
+    ctx.floor("R19.5", len(mv), 1, "MultiVolume(...) in run_create")
+    digits = None
+    for c in mv:
+        for k in c.keywords:
+            if k.arg == "ext_digits" and isinstance(k.value, ast.Constant):
+                digits = k.value.value
+    ctx.need(digits is not None, "ext_digits of the volumes written by run_create is not a constant")
+    first = f".{1:0{digits}d}"  # multivolumefile numbers volumes from 1 by default
+    rl = _cli(ctx, "run_list")
+    decided = None
+    for n in walk(rl.node):
+        if isinstance(n, ast.If):
+            t = n.test
+            if isinstance(t, ast.Call) and dotted(t.func) in ("re.fullmatch", "re.match") and len(t.args) == 2 and isinstance(t.args[0], ast.Constant) and "suffix" in norm(t.args[1]):
+                pat = t.args[0].value
+                decided = bool(re.fullmatch(pat, first)) if dotted(t.func) == "re.fullmatch" else bool(re.match(pat, first))
+                node = n
+            elif isinstance(t, ast.Compare) and isinstance(t.ops[0], ast.In) and "suffix" in norm(t.left):
+                try:
+                    vals = ctx.ce.eval(t.comparators[0], "cli")
+                    decided = first in vals
+                    node = n
+                except NotConst:
+                    pass
+    ctx.need(decided is not None, "multi-volume detection in run_list not recognised")
+    ctx.check(decided, "R19.5", rl, node.test, f"`l` treats the suffix {first} (written by `c -v`, ext_digits={digits}) as a volume set",
+              f"`c -v` writes volumes NAME.7z{first}, ... (ext_digits={digits}) but `l` does not recognise the suffix {first} as the first volume of a set: listing what the command itself created fails")
+    # the digits / start passed on to MultiVolume are derived from the suffix
+    mvl = [c for c in q.calls(rl) if attr_tail(c) == "MultiVolume"]
+    ok = bool(mvl) and any(k.arg == "ext_digits" and "suffix" in norm(k.value) for k in mvl[0].keywords)
+    ctx.check(ok, "R19.5", rl, mvl[0] if mvl else rl.node, "`l` opens the set with the digit count of the suffix", "`l` does not derive ext_digits from the suffix", construct="run_list ext_digits")
+
+
 def run(ctx: Ctx) -> None:
+    r19_5(ctx)
+    c04.r04_7(ctx)
     r19_1(ctx)
     r19_2(ctx)
     r19_3(ctx)
